@@ -117,6 +117,14 @@ def gen_store(rng: random.Random, n_traces: int, names: list[str], types: list[s
                 for s in spans:
                     if s["parent_event_id"] is not None and rng.random() < 0.5:
                         s["job_name"] = rng.choice(others)
+                        if rng.random() < 0.4:
+                            # clock skew between services: the differently named child
+                            # starts before (or exactly with) the root span
+                            root_start = min(x["start_timestamp"] for x in spans
+                                             if x["parent_event_id"] is None) \
+                                if any(x["parent_event_id"] is None for x in spans) \
+                                else s["start_timestamp"]
+                            s["start_timestamp"] = root_start - rng.choice([0, 1, 1000, 10**6])
         traces.append({"job_id": jid, "name": name, "kind": kind, "spans": spans})
     return {"traces": traces, "base": base, "total": total}
 
